@@ -21,7 +21,7 @@ RULE = ("two real dilated wormholes with dilate(ping_interval=x), x in 0.5..60 s
         "virtual timestamps. Non-trivial = at least 3 answered pings (responsive) or a blackhole that "
         "took effect on a CONNECTED pair; distinct = (x, behaviour, t0, latencies) tuples.")
 ASSUMPTIONS = ["Noise stand-in", "virtual time: all deadlines are decided on the simulated clock"]
-FLOORS = {"quick": {"pongs": 3000, "silent_cases_dropped": 60, "responsive_intervals": 3000, "stops_with_lingering_connection": 12},
+FLOORS = {"quick": {"pongs": 3000, "silent_cases_dropped": 60, "responsive_intervals": 3000, "stops_with_lingering_connection": 6},
           "thorough": {"pongs": 100000, "silent_cases_dropped": 2500, "responsive_intervals": 110000, "stops_with_lingering_connection": 300}}
 
 class Bulk:
